@@ -195,6 +195,13 @@ func (r *Run) SetDistinct(n int64) {
 	r.mu.Unlock()
 }
 
+// SetDistinctAdd accumulates into the externally measured distinct / states count.
+func (r *Run) SetDistinctAdd(n int64) {
+	r.mu.Lock()
+	r.distinctOverride += n
+	r.mu.Unlock()
+}
+
 func (r *Run) Sample(s any) {
 	r.mu.Lock()
 	if len(r.Samples) < 12 {
@@ -271,9 +278,7 @@ func (r *Run) Finish() int {
 		os.WriteFile(v.Path, b, 0o644)
 	}
 	nd, ns := int64(len(r.distinct)), int64(len(r.States))
-	if r.distinctOverride > 0 {
-		nd, ns = r.distinctOverride, r.distinctOverride
-	}
+	nd, ns = nd+r.distinctOverride, ns+r.distinctOverride
 	cov := map[string]any{
 		"evaluations":                   r.Evaluations,
 		"distinct_nontrivial":           nd,
